@@ -17,7 +17,7 @@ SeqToSet(q) == {q[i] : i \in DOMAIN q}
 
 \* JSON object -> state record of Repo.tla
 StateOf(j) ==
-  [ cfgc |-> j.cfgc, prof |-> j.prof, par |-> j.par, cfgNewer |-> j.cfgNewer, mt |-> j.mt, art |-> j.art,
+  [ cfgc |-> j.cfgc, prof |-> j.prof, par |-> j.par, present |-> SeqToSet(j.present), cfgNewer |-> j.cfgNewer, mt |-> j.mt, art |-> j.art,
     pc |-> "idle", plan |-> <<>>, pos |-> 0, flags |-> SeqToSet(j.flags), last |-> j.last ]
 
 \* pre.last / pre.flags are outputs of the previous step and irrelevant for what may happen next
@@ -68,7 +68,9 @@ Clauses(o) ==
   \cup
      \* ---- the transition itself
      (IF o.obs.result = "panic" \/ ~TypeOK(pre) \/ ~TypeOK(post) THEN {}
-      ELSE IF o.obs.result = "refused" THEN {"refused"}
+      \* Open refuses a directory exactly when a configuration names an issuer nobody defines (the bounded model has
+      \* no cycles and no alias collisions); a refusal changes nothing (the transition clause)
+      ELSE IF o.obs.result = "refused" /\ ~Dangling(pre) THEN {"refused"}
       ELSE IF post \in Successors(pre, a) THEN {} ELSE {"transition"})
   \cup
      \* ---- C10: only the planned artifacts change; nothing else is written, created or deleted
@@ -88,7 +90,7 @@ Clauses(o) ==
       ELSE {})
   \cup
      \* ---- C15: a default run without injected fault completes (CSR-only roots are outside the model)
-     (IF IsRun(o) /\ fl = DefaultFlags /\ o.act.outcome \in {"ok", "signfail"}
+     (IF IsRun(o) /\ fl = DefaultFlags /\ o.act.outcome \in {"ok", "signfail"} /\ TypeOK(pre) /\ ~Dangling(pre)
       THEN IF o.obs.result = "ok" THEN {} ELSE {"defaultRunFails"}
       ELSE {})
   \cup
